@@ -422,7 +422,8 @@ func init() {
 		}
 		r := rand.New(rand.NewSource(o.seed + 17))
 		steps := []string{".a", ".b", ".*", "[*]", "[0]", "[5]", ".abs()", ".double()", ".size()", ".keyvalue()", ".c"}
-		preds := []string{"(1 == 1)", "exists(@)", "!(1 == 2)", "(1 == \"a\") is unknown", "(1 == 1 && exists(@))"}
+		preds := []string{"(1 == 1)", "exists(@)", "!(1 == 2)", "(1 == \"a\") is unknown", "(1 == 1 && exists(@))",
+			"($undef == 1) is unknown", "(exists(@ ? (@ == $undef))) is unknown", "(@.datetime(\"HH24\") == 1) is unknown", "($undef == 1) is unknown && exists(@)"}
 		g := &gen{r: r, p: profiles["accessor"]}
 		g.keys = []string{"a", "b", "c"}
 		for i := 0; i < o.n; i++ {
